@@ -10,6 +10,7 @@ from ..index import AnalysisError, ClassInfo, FuncInfo, Index
 from ..inventory import _scopes, dynamic_feature_census, scope_nodes
 from ..purity import is_logging_call
 from ..report import Ctx
+from .common import node_calls
 
 EXPLANATION = (
     "Static analysis of state that outlives an episode or is shared between environment instances. Decided: R4.1 every "
@@ -17,7 +18,8 @@ EXPLANATION = (
     "container through the class, SIM_OUTPUT.x = ...) anywhere in the package is inventoried and must be in the frozen "
     "allow-list (plugin registries written only from __init_subclass__, pcap log handles, output switches written by the "
     "IO layer), and a process-wide setting stored by a from_config loader is stored on every path through it (each build "
-    "re-establishes it instead of inheriting the previous game's value); R4.2 every read of an output switch SIM_OUTPUT.* sits in logging infrastructure, builds an output path, "
+    "re-establishes it instead of inheriting the previous game's value); the global python/numpy/torch generators are "
+    "seeded only inside set_random_seed, with one argument, and never on a path that returns None (no seed in use); R4.2 every read of an output switch SIM_OUTPUT.* sits in logging infrastructure, builds an output path, "
     "or guards statements that only log / open log files - it never guards simulation state or random draws; R4.3 "
     "per-instance defaults: mutable class-level attributes that pydantic does not copy (un-annotated ones, ClassVars, "
     "attributes of plain classes) are either rebound in __init__ or never mutated through an instance, and mutable "
@@ -108,6 +110,32 @@ def r4_1(ctx: Ctx) -> None:
                                    f"a build can complete without storing {what}: it then runs with the value left by the previously built game",
                                    path_text(p))
     ctx.floor("R4.1", "class-level / singleton stores", n, 10)
+    # the global python / numpy generators are process-wide state too: they are (re)seeded only by set_random_seed, with the
+    # seed it returns, and never on the path on which no seed is wanted (creating an unseeded environment must not disturb
+    # the streams a seeded one is drawing from)
+    SEEDERS = ("random.seed", "np.random.seed", "numpy.random.seed", "th.manual_seed", "torch.manual_seed")
+    n_seed = 0
+    for fn, path, root in _scopes(ix):
+        for node, lam in scope_nodes(fn, root):
+            if isinstance(node, ast.Call) and unparse(node.func) in SEEDERS and path.startswith("src/primaite/"):
+                n_seed += 1
+                owner = fn.short if fn is not None else "<module>"
+                ok = owner == "set_random_seed" and len(node.args) == 1
+                why = "seeded with the session's seed inside set_random_seed"
+                if ok:
+                    g = CFG(fn.node)
+                    here = [x for x in g.nodes if any(c is node for c in node_calls(x))]
+                    none_rets = [x for x in g.nodes if x.kind == "stmt" and isinstance(x.ast, ast.Return) and (
+                        x.ast.value is None or (isinstance(x.ast.value, ast.Constant) and x.ast.value.value is None))]
+                    for h in here:
+                        if none_rets and g.path_avoiding(none_rets, lambda e: False, start=h) is not None:
+                            ok, why = False, "the generator is re-seeded on the path on which set_random_seed reports that no seed is in use"
+                elif owner == "set_random_seed":
+                    why = f"`{unparse(node)}` re-seeds a process-wide generator from entropy: every environment in the process loses its stream"
+                else:
+                    why = f"`{unparse(node)}` in {owner}: process-wide generator state written outside set_random_seed"
+                ctx.record("R4.1", f"{path}::{owner}::seeds {unparse(node.func)}", f"{path}:{node.lineno}", ok, why)
+    ctx.floor("R4.1", "global generator seeding sites", n_seed, 2)
     census = {(p, t) for p, _, t in dynamic_feature_census(ix)}
     extra = census - DYNAMIC_CENSUS_EXPECTED
     ctx.record("R4.1", "src/primaite::<package>::dynamic-feature census (setattr / delattr / exec / eval / globals / __dict__)", "", not extra,
